@@ -27,6 +27,7 @@ struct vsink {
     int reqmode;              /* 0 hold, 1 throw, 2 refuse, 3 answer at once */
     char fd[32];              /* last accepted flow def */
     struct urequest *regs[16];
+    unsigned long regserial[16];  /* which registration this is (a freed proxy's address may be used again) */
     int nregs;
     bool used;
     struct upipe *handle;
